@@ -6,19 +6,22 @@ Executable, core Lean only.  Input: the module as the type checker leaves it (fl
 with the namespace it lives in — `ir::Module::root_definitions` is flat as well, the exporters rebuild the
 namespace blocks and merge adjacent ones), the target configuration and the pipeline.  Output (`emit`): the sequence
 of **declarations and uses of identifiers** of the emitted program, in the order of the syntax tree handed to
-the formatter, as the token list the harness extracts from the real tree:
+the formatter.  Rendered (`render`), it is the token list the harness extracts from the real tree:
 
     N:n ( … )   namespace block          S:n ( M:m … m:f ( ) … )  struct with members and methods
     E:n ( V:v … )  enum                   G:n  global variable      C:n ( D:m … )  cbuffer block (HLSL)
     F:n ( P:p … L:x … ( … ) … )  function: parameters, locals, nested blocks
-    ?a::b  use of a value by (relative) path     ?:a::b  use of a type     .m  member of a struct of the program
+    ?a::b  use of a value by (relative) path     ?:a::b  use of a type     .m  member access
+
+Every token also carries what the rendering drops: the scope it is emitted in and the entity it declares / means
+(`Tok.decl sc k name ent`, `Tok.use sc isType path ent`); the theorems are about these.
 
 What is mirrored:
 
-* every namespace / struct / enum / enum value / global / function / local is printed with the leaf name
+* every namespace / struct / enum / enum value / global / function / method / local is printed with the leaf name
   `NameMap::get_name_leaf` returns, uses with `get_name_qualified` (all components from the root, relative base);
   **struct members, cbuffer blocks and cbuffer members are printed with their source names** (they never enter the map),
-  a cbuffer member is referenced by its leaf name only;
+  a cbuffer member is referenced by its leaf name only; methods are symbols of the **root** scope of the map;
 * HLSL for Vulkan with buffer addresses: every `BufferAddress` / `RWBufferAddress` global that is not an array becomes
   a member **named by the global's leaf name** of the generated `struct InlineDescriptor<set>`; a generated
   `g_inlineDescriptor<set>` of that type follows; the global itself is initialised with `g_inlineDescriptor<set>.<leaf>`;
@@ -64,14 +67,16 @@ structure ResOpts where
   deriving DecidableEq, Repr, Inhabited
 
 inductive DefKind where
-  | struct (ord : Nat) (members : List String) (methods : List Nat)
-  | enum (ord : Nat) (values : List Nat)
+  /-- methods: (function ordinal, source name) -/
+  | struct (ord : Nat) (name : String) (members : List String) (methods : List (Nat × String))
+  /-- values: (ordinal through all enums, source name) -/
+  | enum (ord : Nat) (name : String) (values : List (Nat × String))
   /-- `static int` (s), `static const int` (c), `groupshared int` (g) -/
-  | glob (ord : Nat) (storage : Char)
-  | res (ord : Nat) (kind : String) (opts : ResOpts)
+  | glob (ord : Nat) (name : String) (storage : Char)
+  | res (ord : Nat) (name : String) (kind : String) (opts : ResOpts)
   | cbuf (ord : Nat) (name : String) (group : Option Nat) (members : List String)
   /-- `entry = some 'c'`: compute entry point (one parameter) -/
-  | func (ord : Nat) (params : List Nat) (body : List BTok) (entry : Option Char)
+  | func (ord : Nat) (name : String) (params : List Nat) (body : List BTok) (entry : Option Char)
   deriving Repr, Inhabited
 
 structure Def where
@@ -82,33 +87,18 @@ structure Def where
 structure Program where
   nss : List (Option Nat × String)
   defs : List Def
-  /-- source names by ordinal -/
-  structNames : List String
-  enumNames : List String
-  /-- enum values: (enum ordinal, name), numbered through all enums -/
-  valueNames : List (Nat × String)
-  globalNames : List String
-  funcNames : List String
-  /-- methods: function ordinals that are struct methods -/
-  methods : List Nat
+  /-- source names of the variable registry (parameters and locals, function by function) -/
   localNames : List String
-  /-- namespace of every struct / enum / global / function / cbuffer by ordinal -/
-  structNs : List (Option Nat)
-  enumNs : List (Option Nat)
-  globalNs : List (Option Nat)
-  funcNs : List (Option Nat)
-  cbufNs : List (Option Nat)
-  cbufNames : List String
   /-- the entry points of the pipeline (function ordinals) and its default bind group; `none` = no pipeline -/
   pipeline : Option (List Nat × Option Nat)
   deriving Repr, Inhabited
 
-/-! ## facts about globals -/
+/-! ## facts about the definitions -/
 
 def globalDef (p : Program) (k : Nat) : Option DefKind :=
   (p.defs.find? fun d => match d.kind with
-    | .glob o _ => o == k
-    | .res o _ _ => o == k
+    | .glob o _ _ => o == k
+    | .res o _ _ _ => o == k
     | _ => false).map (·.kind)
 
 def cbufDef (p : Program) (c : Nat) : Option DefKind :=
@@ -116,9 +106,32 @@ def cbufDef (p : Program) (c : Nat) : Option DefKind :=
     | .cbuf o _ _ _ => o == c
     | _ => false).map (·.kind)
 
-def numGlobals (p : Program) : Nat := p.globalNames.length
-def numStructs (p : Program) : Nat := p.structNames.length
-def numCbufs (p : Program) : Nat := p.cbufNames.length
+def numGlobals (p : Program) : Nat :=
+  (p.defs.filter fun d => match d.kind with
+    | .glob .. => true
+    | .res .. => true
+    | _ => false).length
+
+def numStructs (p : Program) : Nat :=
+  (p.defs.filter fun d => match d.kind with
+    | .struct .. => true
+    | _ => false).length
+
+def cbufs (p : Program) : List (Nat × Option Nat × String) :=
+  p.defs.filterMap fun d => match d.kind with
+    | .cbuf c n _ _ => some (c, d.ns, n)
+    | _ => none
+
+def methodOrds (p : Program) : List Nat :=
+  p.defs.flatMap fun d => match d.kind with
+    | .struct _ _ _ fs => fs.map (·.1)
+    | _ => []
+
+/-- all enum values: (value ordinal, enum ordinal) -/
+def valueEnums (p : Program) : List (Nat × Nat) :=
+  p.defs.flatMap fun d => match d.kind with
+    | .enum e _ vs => vs.map fun v => (v.1, e)
+    | _ => []
 
 /-- Metal numbers the global made from cbuffer `c` after all globals of the source -/
 def cbGlobal (p : Program) (c : Nat) : Nat := numGlobals p + c
@@ -132,14 +145,14 @@ def defaultGroup (p : Program) : Nat :=
 /-- does the (Metal) global keep a file-scope declaration (compile-time constant)? -/
 def isConstantGlobal (p : Program) (g : Nat) : Bool :=
   match globalDef p g with
-  | some (.glob _ s) => s == 'c'
-  | some (.res _ kind _) => kind == "ssamp"
+  | some (.glob _ _ s) => s == 'c'
+  | some (.res _ _ kind _) => kind == "ssamp"
   | _ => false
 
 def isExternResource (p : Program) (g : Nat) : Bool :=
   if g ≥ numGlobals p then true else
   match globalDef p g with
-  | some (.res _ _ _) => true
+  | some (.res ..) => true
   | _ => false
 
 /-- bind group of a resource / cbuffer global (Metal numbering of cbuffer globals) -/
@@ -150,34 +163,22 @@ def groupOf (p : Program) (g : Nat) : Nat :=
     | _ => defaultGroup p
   else
     match globalDef p g with
-    | some (.res _ _ o) => o.group.getD (defaultGroup p)
+    | some (.res _ _ _ o) => o.group.getD (defaultGroup p)
     | _ => defaultGroup p
 
 /-- Vulkan with buffer addresses: the global lives in the inline descriptor struct -/
 def isInline (p : Program) (g : Nat) : Bool :=
   match globalDef p g with
-  | some (.res _ kind o) => (kind == "ba" || kind == "rwba") && !o.array
+  | some (.res _ _ kind o) => (kind == "ba" || kind == "rwba") && !o.array
   | _ => false
 
 /-- the struct a resource's type mentions (`ConstantBuffer<S>`, `StructuredBuffer<S>`) -/
 def elemStruct (p : Program) (g : Nat) : Option Nat :=
   match globalDef p g with
-  | some (.res _ kind o) => if kind == "cbs" || kind == "sbs" then o.elem else none
+  | some (.res _ _ kind o) => if kind == "cbs" || kind == "sbs" then o.elem else none
   | _ => none
 
 /-! ## the registries `NameMap::build` sees -/
-
-def mkEntries (k : Kind) (names : List String) (nss : List (Option Nat)) : List Entry :=
-  (List.range names.length).map fun i => ⟨⟨k, i⟩, (nss.getD i none), names.getD i ""⟩
-
-/-- enums, each followed by its values (symbols of the scope that contains the enum) -/
-def enumEntries (p : Program) : List Entry :=
-  (List.range p.enumNames.length).flatMap fun e =>
-    ⟨⟨.enum, e⟩, p.enumNs.getD e none, p.enumNames.getD e ""⟩ ::
-      ((List.range p.valueNames.length).filterMap fun v =>
-        match p.valueNames[v]? with
-        | some (e', n) => if e' == e then some ⟨⟨.enumValue, v⟩, p.enumNs.getD e none, n⟩ else none
-        | none => none)
 
 def bodyUses (body : List BTok) : List Ref :=
   body.filterMap fun t => match t with
@@ -186,7 +187,7 @@ def bodyUses (body : List BTok) : List Ref :=
 
 def funcBodies (p : Program) : List (Nat × List BTok) :=
   p.defs.filterMap fun d => match d.kind with
-    | .func o _ b _ => some (o, b)
+    | .func o _ _ b _ => some (o, b)
     | _ => none
 
 /-- the usage analysis: every function / global some function body mentions; on Metal a use of a cbuffer member is a
@@ -195,22 +196,42 @@ def usedSyms (t : Target) (p : Program) : List Sym :=
   (funcBodies p).flatMap fun fb => (bodyUses fb.2).filterMap fun r =>
     match r with
     | .glob k => some ⟨.global, k⟩
-    | .func k => if p.methods.contains k then none else some ⟨.func, k⟩
+    | .func k => if (methodOrds p).contains k then none else some ⟨.func, k⟩
     | .cbMember c _ => if t.isMsl then some ⟨.global, cbGlobal p c⟩ else none
     | _ => none
 
+def structEntries (p : Program) : List Entry :=
+  p.defs.filterMap fun d => match d.kind with
+    | .struct o n _ _ => some ⟨⟨.struct, o⟩, d.ns, n⟩
+    | _ => none
+
+/-- enums, each followed by its values (symbols of the scope that contains the enum) -/
+def enumEntries (p : Program) : List Entry :=
+  p.defs.flatMap fun d => match d.kind with
+    | .enum o n vs => ⟨⟨.enum, o⟩, d.ns, n⟩ :: vs.map fun v => ⟨⟨.enumValue, v.1⟩, d.ns, v.2⟩
+    | _ => []
+
+def globalEntries (p : Program) : List Entry :=
+  p.defs.filterMap fun d => match d.kind with
+    | .glob o n _ => some ⟨⟨.global, o⟩, d.ns, n⟩
+    | .res o n _ _ => some ⟨⟨.global, o⟩, d.ns, n⟩
+    | _ => none
+
+/-- functions in registry order; methods are named in the root scope whatever namespace holds the struct -/
+def funcEntries (p : Program) : List Entry :=
+  p.defs.flatMap fun d => match d.kind with
+    | .struct _ _ _ fs => fs.map fun f => ⟨⟨.func, f.1⟩, none, f.2⟩
+    | .func o n _ _ _ => [⟨⟨.func, o⟩, d.ns, n⟩]
+    | _ => []
+
 def namesInput (t : Target) (p : Program) : Input :=
-  let structs := mkEntries .struct p.structNames p.structNs ++
-    (if t.isMsl then (List.range (numCbufs p)).map fun c =>
-        (⟨⟨.struct, cbStruct p c⟩, p.cbufNs.getD c none, p.cbufNames.getD c "" ++ "Type"⟩ : Entry) else [])
-  let globals := mkEntries .global p.globalNames p.globalNs ++
-    (if t.isMsl then (List.range (numCbufs p)).map fun c =>
-        (⟨⟨.global, cbGlobal p c⟩, p.cbufNs.getD c none, p.cbufNames.getD c ""⟩ : Entry) else [])
-  -- methods are named in the root scope whatever namespace holds the struct
-  let funcs := (List.range p.funcNames.length).map fun i =>
-    (⟨⟨.func, i⟩, (if p.methods.contains i then none else p.funcNs.getD i none), p.funcNames.getD i ""⟩ : Entry)
   { nss := p.nss
-    entries := structs ++ enumEntries p ++ globals ++ funcs
+    entries :=
+      structEntries p ++
+      (if t.isMsl then (cbufs p).map fun c => (⟨⟨.struct, cbStruct p c.1⟩, c.2.1, c.2.2 ++ "Type"⟩ : Entry) else []) ++
+      enumEntries p ++ globalEntries p ++
+      (if t.isMsl then (cbufs p).map fun c => (⟨⟨.global, cbGlobal p c.1⟩, c.2.1, c.2.2⟩ : Entry) else []) ++
+      funcEntries p
     used := usedSyms t p
     locals := p.localNames }
 
@@ -230,8 +251,8 @@ def showPath (q : List String) : String := "::".intercalate q
 
 /-- `get_enum_value_name_full`: the enum's qualified name followed by the value's leaf name -/
 def valuePath (names : List Named) (p : Program) (v : Nat) : List String :=
-  match p.valueNames[v]? with
-  | some (e, _) => pathOf names ⟨.enum, e⟩ ++ [leaf names ⟨.enumValue, v⟩]
+  match (valueEnums p).find? (·.1 == v) with
+  | some (_, e) => pathOf names ⟨.enum, e⟩ ++ [leaf names ⟨.enumValue, v⟩]
   | none => ["<no value>"]
 
 def nsPath (names : List Named) (ns : Option Nat) : List String :=
@@ -272,26 +293,77 @@ def required (p : Program) (f : Nat) : List Nat :=
   | some x => x.2
   | none => []
 
-/-! ## token emission -/
+/-! ## tokens -/
+
+/-- what a token declares / means -/
+inductive Ent where
+  /-- an entity the name map names -/
+  | sym (s : Sym)
+  /-- member `i` of struct `s` (source name; Metal: also the members of the struct made from a cbuffer) -/
+  | member (s i : Nat)
+  /-- HLSL cbuffer block and its members (source names) -/
+  | cbuf (c : Nat)
+  | cbufMember (c i : Nat)
+  /-- a declaration the exporter generates itself -/
+  | gen (name : String)
+  deriving DecidableEq, Repr, Inhabited
+
+/-- the scope of the emitted program a token is placed in -/
+inductive Scope where
+  | file (ns : Option Nat)
+  | strct (s : Nat)
+  | enm (e : Nat)
+  | cbuffer (c : Nat)
+  | genStruct (name : String)
+  | func (f : Nat)
+  | wrapper
+  deriving DecidableEq, Repr, Inhabited
+
+inductive Tok where
+  | decl (sc : Scope) (k : String) (name : String) (e : Ent)
+  | use (sc : Scope) (isType : Bool) (path : List String) (e : Ent)
+  | mem (sc : Scope) (name : String) (e : Ent)
+  | op | cl
+  deriving DecidableEq, Repr, Inhabited
+
+def render : Tok → String
+  | .decl _ k n _ => k ++ ":" ++ n
+  | .use _ ty q _ => (if ty then "?:" else "?") ++ showPath q
+  | .mem _ n _ => "." ++ n
+  | .op => "("
+  | .cl => ")"
+
+def gInline (s : Nat) : String := "g_inlineDescriptor" ++ toString s
+def inlineStruct (s : Nat) : String := "InlineDescriptor" ++ toString s
+def argBuffer (i : Nat) : String := "ArgumentBuffer" ++ toString i
+def setName (i : Nat) : String := "set" ++ toString i
+def wrapperName : String := "ComputeShaderEntry"
 
 /-- the type tokens in front of a declaration of global `g` (a user struct named by the type) -/
-def typeToks (names : List Named) (p : Program) (g : Nat) : List String :=
-  if g ≥ numGlobals p then ["?:" ++ showPath (pathOf names ⟨.struct, cbStruct p (g - numGlobals p)⟩)]
+def typeToks (sc : Scope) (names : List Named) (p : Program) (g : Nat) : List Tok :=
+  if g ≥ numGlobals p then
+    [.use sc true (pathOf names ⟨.struct, cbStruct p (g - numGlobals p)⟩) (.sym ⟨.struct, cbStruct p (g - numGlobals p)⟩)]
   else match elemStruct p g with
-    | some s => ["?:" ++ showPath (pathOf names ⟨.struct, s⟩)]
+    | some s => [.use sc true (pathOf names ⟨.struct, s⟩) (.sym ⟨.struct, s⟩)]
     | none => []
 
-def memberTok (p : Program) (g : Nat) : List String :=
+def structMembers (p : Program) (s : Nat) : List String :=
+  match p.defs.findSome? (fun d => match d.kind with
+    | .struct o _ ms _ => if o == s then some ms else none
+    | _ => none) with
+  | some ms => ms
+  | none => []
+
+/-- `.m` after a `ConstantBuffer<S>` resource: the first member of `S` -/
+def memberTok (sc : Scope) (p : Program) (g : Nat) : List Tok :=
   match globalDef p g with
-  | some (.res _ kind o) =>
+  | some (.res _ _ kind o) =>
     if kind == "cbs" then
       match o.elem with
       | some s =>
-        match p.defs.findSome? (fun d => match d.kind with
-          | .struct o' ms _ => if o' == s then some ms else none
-          | _ => none) with
-        | some (m :: _) => ["." ++ m]
-        | _ => []
+        match structMembers p s with
+        | m :: _ => [.mem sc m (.member s 0)]
+        | [] => []
       | none => []
     else []
   | _ => []
@@ -301,93 +373,119 @@ def cbMemberName (p : Program) (c i : Nat) : String :=
   | some (.cbuf _ _ _ ms) => ms.getD i "<no member>"
   | _ => "<no cbuffer>"
 
-def useToks (t : Target) (names : List Named) (p : Program) : Ref → List String
+def useToks (t : Target) (sc : Scope) (names : List Named) (p : Program) : Ref → List Tok
   | .glob k =>
-    if t.isMsl && !isConstantGlobal p k then ["?" ++ leaf names ⟨.global, k⟩] ++ memberTok p k
-    else ["?" ++ showPath (pathOf names ⟨.global, k⟩)] ++ memberTok p k
+    if t.isMsl && !isConstantGlobal p k then [.use sc false [leaf names ⟨.global, k⟩] (.sym ⟨.global, k⟩)] ++ memberTok sc p k
+    else [.use sc false (pathOf names ⟨.global, k⟩) (.sym ⟨.global, k⟩)] ++ memberTok sc p k
   | .func k =>
-    if p.methods.contains k then [] else
-    ["?" ++ showPath (pathOf names ⟨.func, k⟩)] ++
-      (if t.isMsl then (required p k).map fun g => "?" ++ leaf names ⟨.global, g⟩ else [])
-  | .loc k => ["?" ++ leaf names ⟨.localVar, k⟩]
-  | .enumVal v => ["?" ++ showPath (valuePath names p v)]
+    if (methodOrds p).contains k then [] else
+    [.use sc false (pathOf names ⟨.func, k⟩) (.sym ⟨.func, k⟩)] ++
+      (if t.isMsl then (required p k).map fun g => .use sc false [leaf names ⟨.global, g⟩] (.sym ⟨.global, g⟩) else [])
+  | .loc k => [.use sc false [leaf names ⟨.localVar, k⟩] (.sym ⟨.localVar, k⟩)]
+  | .enumVal v => [.use sc false (valuePath names p v) (.sym ⟨.enumValue, v⟩)]
   | .cbMember c i =>
-    if t.isMsl then ["?" ++ leaf names ⟨.global, cbGlobal p c⟩, "." ++ cbMemberName p c i]
-    else ["?" ++ cbMemberName p c i]
-  | .structTy k => ["?:" ++ showPath (pathOf names ⟨.struct, k⟩)]
-  | .enumTy k => ["?:" ++ showPath (pathOf names ⟨.enum, k⟩)]
+    if t.isMsl then
+      [.use sc false [leaf names ⟨.global, cbGlobal p c⟩] (.sym ⟨.global, cbGlobal p c⟩),
+       .mem sc (cbMemberName p c i) (.member (cbStruct p c) i)]
+    else [.use sc false [cbMemberName p c i] (.cbufMember c i)]
+  | .structTy k => [.use sc true (pathOf names ⟨.struct, k⟩) (.sym ⟨.struct, k⟩)]
+  | .enumTy k => [.use sc true (pathOf names ⟨.enum, k⟩) (.sym ⟨.enum, k⟩)]
   | .nothing => []
 
-def bodyToks (t : Target) (names : List Named) (p : Program) (body : List BTok) : List String :=
+def bodyToks (t : Target) (sc : Scope) (names : List Named) (p : Program) (body : List BTok) : List Tok :=
   body.flatMap fun b => match b with
-    | .lv k => ["L:" ++ leaf names ⟨.localVar, k⟩]
-    | .op => ["("]
-    | .cl => [")"]
-    | .use r => useToks t names p r
+    | .lv k => [.decl sc "L" (leaf names ⟨.localVar, k⟩) (.sym ⟨.localVar, k⟩)]
+    | .op => [.op]
+    | .cl => [.cl]
+    | .use r => useToks t sc names p r
+
+def memberDecls (sc : Scope) (k : String) (mk : Nat → Ent) : List String → Nat → List Tok
+  | [], _ => []
+  | m :: r, i => .decl sc k m (mk i) :: memberDecls sc k mk r (i + 1)
 
 /-- the tokens of one root definition (without its namespace blocks) -/
-def defToks (t : Target) (names : List Named) (p : Program) (d : Def) : List String :=
+def defToks (t : Target) (names : List Named) (p : Program) (d : Def) : List Tok :=
   match d.kind with
-  | .struct o ms fs =>
-    ["S:" ++ leaf names ⟨.struct, o⟩, "("] ++ ms.map ("M:" ++ ·) ++
-      fs.flatMap (fun f => ["m:" ++ leaf names ⟨.func, f⟩, "(", ")"]) ++ [")"]
-  | .enum o vs =>
-    ["E:" ++ leaf names ⟨.enum, o⟩, "("] ++ vs.map (fun v => "V:" ++ leaf names ⟨.enumValue, v⟩) ++ [")"]
-  | .glob o s =>
-    if t.isMsl && s != 'c' then [] else ["G:" ++ leaf names ⟨.global, o⟩]
-  | .res o kind _ =>
-    if t.isMsl then (if kind == "ssamp" then ["G:" ++ leaf names ⟨.global, o⟩] else [])
+  | .struct o _ ms fs =>
+    [.decl (.file d.ns) "S" (leaf names ⟨.struct, o⟩) (.sym ⟨.struct, o⟩), .op] ++
+      memberDecls (.strct o) "M" (.member o) ms 0 ++
+      fs.flatMap (fun f => [.decl (.strct o) "m" (leaf names ⟨.func, f.1⟩) (.sym ⟨.func, f.1⟩), .op, .cl]) ++ [.cl]
+  | .enum o _ vs =>
+    [.decl (.file d.ns) "E" (leaf names ⟨.enum, o⟩) (.sym ⟨.enum, o⟩), .op] ++
+      vs.map (fun v => .decl (.enm o) "V" (leaf names ⟨.enumValue, v.1⟩) (.sym ⟨.enumValue, v.1⟩)) ++ [.cl]
+  | .glob o _ s =>
+    if t.isMsl && s != 'c' then [] else [.decl (.file d.ns) "G" (leaf names ⟨.global, o⟩) (.sym ⟨.global, o⟩)]
+  | .res o _ kind _ =>
+    if t.isMsl then
+      (if kind == "ssamp" then [.decl (.file d.ns) "G" (leaf names ⟨.global, o⟩) (.sym ⟨.global, o⟩)] else [])
     else
-      typeToks names p o ++ ["G:" ++ leaf names ⟨.global, o⟩] ++
+      typeToks (.file d.ns) names p o ++ [.decl (.file d.ns) "G" (leaf names ⟨.global, o⟩) (.sym ⟨.global, o⟩)] ++
         (if t == .vkba && isInline p o then
-          ["?g_inlineDescriptor" ++ toString (groupOf p o), "." ++ leaf names ⟨.global, o⟩] else [])
+          [.use (.file d.ns) false [gInline (groupOf p o)] (.gen (gInline (groupOf p o))),
+           .mem (.file d.ns) (leaf names ⟨.global, o⟩) (.sym ⟨.global, o⟩)] else [])
   | .cbuf c name _ ms =>
-    if t.isMsl then ["S:" ++ leaf names ⟨.struct, cbStruct p c⟩, "("] ++ ms.map ("M:" ++ ·) ++ [")"]
-    else ["C:" ++ name, "("] ++ ms.map ("D:" ++ ·) ++ [")"]
-  | .func o ps body _ =>
-    ["F:" ++ leaf names ⟨.func, o⟩, "("] ++ ps.map (fun l => "P:" ++ leaf names ⟨.localVar, l⟩) ++
-      (if t.isMsl then (required p o).flatMap fun g => typeToks names p g ++ ["P:" ++ leaf names ⟨.global, g⟩] else []) ++
-      bodyToks t names p body ++ [")"]
-
-def defNs (d : Def) : Option Nat := d.ns
+    if t.isMsl then
+      [.decl (.file d.ns) "S" (leaf names ⟨.struct, cbStruct p c⟩) (.sym ⟨.struct, cbStruct p c⟩), .op] ++
+        memberDecls (.strct (cbStruct p c)) "M" (.member (cbStruct p c)) ms 0 ++ [.cl]
+    else
+      -- the members of a cbuffer block are names of the enclosing scope
+      [.decl (.file d.ns) "C" name (.cbuf c), .op] ++ memberDecls (.file d.ns) "D" (.cbufMember c) ms 0 ++ [.cl]
+  | .func o _ ps body _ =>
+    [.decl (.file d.ns) "F" (leaf names ⟨.func, o⟩) (.sym ⟨.func, o⟩), .op] ++
+      ps.map (fun l => .decl (.func o) "P" (leaf names ⟨.localVar, l⟩) (.sym ⟨.localVar, l⟩)) ++
+      (if t.isMsl then (required p o).flatMap fun g =>
+        typeToks (.func o) names p g ++ [.decl (.func o) "P" (leaf names ⟨.global, g⟩) (.sym ⟨.global, g⟩)] else []) ++
+      bodyToks t (.func o) names p body ++ [.cl]
 
 def commonPrefix : List String → List String → List String
   | a :: r, b :: s => if a == b then a :: commonPrefix r s else []
   | _, _ => []
 
-/-- `generate_root_definitions` + `simplify_namespaces`: every definition is wrapped in its namespace chain and
-adjacent blocks of one name are merged -/
-def wrap : List String → List (List String × List String) → List String
-  | cur, [] => cur.map fun _ => ")"
-  | cur, (path, toks) :: rest =>
-    let c := commonPrefix cur path
-    (List.replicate (cur.length - c.length) ")") ++
-      ((path.drop c.length).flatMap fun n => ["N:" ++ n, "("]) ++ toks ++ wrap path rest
+/-- the namespace ids along the chain of `ns`, outermost first -/
+def nsChain (p : Program) : Nat → Option Nat → List Nat
+  | 0, _ => []
+  | _, none => []
+  | fuel + 1, some i =>
+    match p.nss[i]? with
+    | some (parent, _) => nsChain p fuel parent ++ [i]
+    | none => [i]
 
-def globalOrds (p : Program) : List Nat :=
-  p.defs.filterMap fun d => match d.kind with
-    | .glob o _ => some o
-    | .res o _ _ => some o
-    | _ => none
+/-- `generate_root_definitions` + `simplify_namespaces`: every definition is wrapped in its namespace chain and
+adjacent blocks of one (emitted) name are merged.  `cur` = the blocks that are open. -/
+def wrap (names : List Named) (p : Program) : List String → List (Option Nat × List Tok) → List Tok
+  | cur, [] => cur.map fun _ => .cl
+  | cur, (ns, toks) :: rest =>
+    let path := nsPath names ns
+    let c := commonPrefix cur path
+    let chain := nsChain p (p.nss.length + 1) ns
+    (List.replicate (cur.length - c.length) Tok.cl) ++
+      (((List.range path.length).drop c.length).flatMap fun j =>
+        let id := chain.getD j 0
+        let parent : Option Nat := if j == 0 then none else some (chain.getD (j - 1) 0)
+        [Tok.decl (.file parent) "N" (path.getD j "") (.sym ⟨.ns, id⟩), Tok.op]) ++
+      toks ++ wrap names p path rest
 
 /-- the resources in root-definition order, cbuffers under their Metal global number -/
 def boundInOrder (p : Program) : List Nat :=
   p.defs.filterMap fun d => match d.kind with
-    | .res o _ _ => some o
+    | .res o _ _ _ => some o
     | .cbuf c _ _ _ => some (cbGlobal p c)
     | _ => none
 
+def inlineGlobals (p : Program) : List Nat :=
+  (boundInOrder p).filter fun g => g < numGlobals p && isInline p g
+
 def inlineSets (p : Program) : List Nat :=
-  ((boundInOrder p).filter (fun g => g < numGlobals p && isInline p g)).foldl
-    (fun acc g => insertNat (groupOf p g) acc) []
+  (inlineGlobals p).foldl (fun acc g => insertNat (groupOf p g) acc) []
 
 /-- Vulkan with buffer addresses: `struct InlineDescriptor<s> { … }; ConstantBuffer<InlineDescriptor<s>> g_inlineDescriptor<s>;` -/
-def inlinePrelude (names : List Named) (p : Program) : List String :=
+def inlinePrelude (names : List Named) (p : Program) : List Tok :=
   (inlineSets p).flatMap fun s =>
-    ["S:InlineDescriptor" ++ toString s, "("] ++
-      (((boundInOrder p).filter fun g => g < numGlobals p && isInline p g && groupOf p g == s).map
-        fun g => "M:" ++ leaf names ⟨.global, g⟩) ++
-      [")", "?:InlineDescriptor" ++ toString s, "G:g_inlineDescriptor" ++ toString s]
+    [Tok.decl (.file none) "S" (inlineStruct s) (.gen (inlineStruct s)), .op] ++
+      (((inlineGlobals p).filter fun g => groupOf p g == s).map
+        fun g => Tok.decl (.genStruct (inlineStruct s)) "M" (leaf names ⟨.global, g⟩) (.sym ⟨.global, g⟩)) ++
+      [.cl, .use (.file none) true [inlineStruct s] (.gen (inlineStruct s)),
+       .decl (.file none) "G" (gInline s) (.gen (gInline s))]
 
 /-- Metal: the globals with a binding slot (extern, not a static sampler) -/
 def mslBound (p : Program) : List Nat :=
@@ -398,43 +496,52 @@ def mslGroups (p : Program) : Nat :=
 
 def entryParam (p : Program) (e : Nat) : Option Nat :=
   p.defs.findSome? fun d => match d.kind with
-    | .func o (l :: _) _ (some 'c') => if o == e then some l else none
+    | .func o _ (l :: _) _ (some 'c') => if o == e then some l else none
     | _ => none
 
 /-- Metal with a compute pipeline: argument buffer structs and the entry wrapper -/
-def mslEpilogue (names : List Named) (p : Program) : List String :=
+def mslEpilogue (names : List Named) (p : Program) : List Tok :=
   match p.pipeline with
   | some ([e], _) =>
     let groups := List.range (mslGroups p)
     (groups.flatMap fun i =>
-      ["S:ArgumentBuffer" ++ toString i, "("] ++
+      [Tok.decl (.file none) "S" (argBuffer i) (.gen (argBuffer i)), .op] ++
         (((mslBound p).filter fun g => groupOf p g == i).flatMap fun g =>
-          typeToks names p g ++ ["M:" ++ leaf names ⟨.global, g⟩]) ++ [")"]) ++
-    ["F:ComputeShaderEntry", "("] ++
+          typeToks (.genStruct (argBuffer i)) names p g ++
+            [Tok.decl (.genStruct (argBuffer i)) "M" (leaf names ⟨.global, g⟩) (.sym ⟨.global, g⟩)]) ++ [.cl]) ++
+    [Tok.decl (.file none) "F" wrapperName (.gen wrapperName), .op] ++
       (match entryParam p e with
-       | some l => ["P:" ++ leaf names ⟨.localVar, l⟩]
+       | some l => [Tok.decl .wrapper "P" (leaf names ⟨.localVar, l⟩) (.sym ⟨.localVar, l⟩)]
        | none => []) ++
-      (groups.flatMap fun i => ["?:ArgumentBuffer" ++ toString i, "P:set" ++ toString i]) ++
+      (groups.flatMap fun i =>
+        [Tok.use .wrapper true [argBuffer i] (.gen (argBuffer i)), .decl .wrapper "P" (setName i) (.gen (setName i))]) ++
       ((required p e).flatMap fun g =>
-        if isExternResource p g then [] else ["L:" ++ leaf names ⟨.global, g⟩]) ++
-      ["?" ++ showPath (pathOf names ⟨.func, e⟩)] ++
+        if isExternResource p g then [] else [Tok.decl .wrapper "L" (leaf names ⟨.global, g⟩) (.sym ⟨.global, g⟩)]) ++
+      [Tok.use .wrapper false (pathOf names ⟨.func, e⟩) (.sym ⟨.func, e⟩)] ++
       (match entryParam p e with
-       | some l => ["?" ++ leaf names ⟨.localVar, l⟩]
+       | some l => [Tok.use .wrapper false [leaf names ⟨.localVar, l⟩] (.sym ⟨.localVar, l⟩)]
        | none => []) ++
       ((required p e).flatMap fun g =>
-        if isExternResource p g then ["?set" ++ toString (groupOf p g), "." ++ leaf names ⟨.global, g⟩]
-        else ["?" ++ leaf names ⟨.global, g⟩]) ++ [")"]
+        if isExternResource p g then
+          [Tok.use .wrapper false [setName (groupOf p g)] (.gen (setName (groupOf p g))),
+           .mem .wrapper (leaf names ⟨.global, g⟩) (.sym ⟨.global, g⟩)]
+        else [Tok.use .wrapper false [leaf names ⟨.global, g⟩] (.sym ⟨.global, g⟩)]) ++ [.cl]
   | _ => []
 
 /-- the declarations and uses of the emitted program -/
-def emit (t : Target) (names : List Named) (p : Program) : List String :=
+def emit (t : Target) (names : List Named) (p : Program) : List Tok :=
   (if t == .vkba then inlinePrelude names p else []) ++
-  wrap [] (p.defs.map fun d => (nsPath names d.ns, defToks t names p d)) ++
+  wrap names p [] (p.defs.map fun d => (d.ns, defToks t names p d)) ++
   (if t.isMsl then mslEpilogue names p else [])
 
 /-! ## reflection -/
 
 def groupsUpTo (gs : List Nat) : List Nat := List.range (gs.foldl (fun m g => max m (g + 1)) 0)
+
+def cbufName (p : Program) (c : Nat) : String :=
+  match cbufDef p c with
+  | some (.cbuf _ n _ _) => n
+  | _ => "<no cbuffer>"
 
 /-- `(bind group, reported name)` in the order of the metadata -/
 def reflection (t : Target) (names : List Named) (p : Program) : List (Nat × String) :=
@@ -444,21 +551,21 @@ def reflection (t : Target) (names : List Named) (p : Program) : List (Nat × St
   else
     (groupsUpTo ((boundInOrder p).map (groupOf p))).flatMap fun i =>
       ((boundInOrder p).filter fun g => groupOf p g == i).map fun g =>
-        if g ≥ numGlobals p then (i, p.cbufNames.getD (g - numGlobals p) "") else (i, leaf names ⟨.global, g⟩)
+        if g ≥ numGlobals p then (i, cbufName p (g - numGlobals p)) else (i, leaf names ⟨.global, g⟩)
 
 def entryNames (t : Target) (names : List Named) (p : Program) : List String :=
   match p.pipeline with
-  | some (es, _) => es.map fun e => if t.isMsl then "ComputeShaderEntry" else leaf names ⟨.func, e⟩
+  | some (es, _) => es.map fun e => if t.isMsl then wrapperName else leaf names ⟨.func, e⟩
   | none => []
 
 /-- pipelines with vertex / pixel stages are outside the model -/
 def supported (p : Program) : Bool :=
   (p.defs.all fun d => match d.kind with
-    | .func _ _ _ (some c) => c == 'c'
+    | .func _ _ _ _ (some c) => c == 'c'
     | _ => true) &&
   (match p.pipeline with
    | some ([e], _) => p.defs.any fun d => match d.kind with
-     | .func o _ _ (some 'c') => o == e
+     | .func o _ _ _ (some 'c') => o == e
      | _ => false
    | some _ => false
    | none => true)
